@@ -453,6 +453,7 @@ class C06Engine(object):
         self.states = set()
         self.samples = []
         self.failures = []
+        self.run_log = []
         self.known_seen = {}
         self.selftest = {}
         with open(os.path.join(SUBJECT, "simlib.yaml")) as fp:
@@ -490,6 +491,8 @@ class C06Engine(object):
     def account(self, spec, res):
         st = self.stats
         st["sequences"] += 1
+        self.run_log.append((spec["variant"], spec["driver"], spec["index"], res.get("digest"),
+                             len(res.get("violations") or [])))
         d = st["per_driver"].setdefault(spec["driver"], {"sequences": 0, "ops": 0, "violating": 0, "inconclusive": 0})
         d["sequences"] += 1
         nchk = res.get("stats", {}).get("ops_checked", 0)
@@ -642,6 +645,7 @@ class C06Engine(object):
                      "distinct (driver, previous op kind, op kind) transitions actually executed and judged"),
             "samples": self.samples,
             "ops_judged": st["ops"],
+            "run_digest": digest_obj(sorted(self.run_log)),
             "sequences_per_hour": int(st["sequences"] / max(wall, 1e-6) * 3600),
             "simulated_time": "no simulated clock; logical steps = %d judged wrapper calls" % st["ops"],
             "per_driver": st["per_driver"],
